@@ -25,6 +25,8 @@ def cases(tier, seed):
                 m = 50 // N
         else:
             m = int(rng.integers(1, 50 // N + 1))
+        if i % 9 == 4:
+            m = int(rng.integers(50 // N + 1, 64 // N + 1))      # "every N and m": densities beyond N*m = 50 too (purity does not need exact digits)
         out.append({"N": N, "m": m, "i": i, "seed": seed, "ops": int(rng.integers(40, 160 if tier == "quick" else 400))})
     return out
 
@@ -39,9 +41,21 @@ def run_case(c):
     N, m = c["N"], c["m"]
     rng = scenario.rng_for(c["seed"], "C17run", c["i"])
     lo, hi, kind = scenario.gen_box(rng, N)
-    ev = Evolvent(lo, hi, N, m)
     viol = []
     obs = {"sequences": 1, "box_" + kind: 1}
+    ctor_args = None
+    if c["i"] % 2:
+        # the object is constructed from the caller's own float64 arrays: they must stay untouched whatever is done to the object later
+        c_lo, c_hi = np.array(lo, dtype=np.double), np.array(hi, dtype=np.double)
+        ev = Evolvent(c_lo, c_hi, N, m)
+        ctor_args = (c_lo, c_lo.copy(), c_hi, c_hi.copy())
+        # ... and a second object built from the same arrays must keep answering for ITS box
+        twin = Evolvent(c_lo, c_hi, N, m)
+        twin_box = (list(lo), list(hi))
+        obs["constructed_from_caller_arrays"] = 1
+    else:
+        ev = Evolvent(lo, hi, N, m)
+        twin = None
     kept = []          # (returned array reference, copy at return time, description)
     kept_args = []     # (array the caller passed in, copy at call time, description): must never change later either
     last_inverse = None
@@ -181,6 +195,15 @@ def run_case(c):
                                      "what": "an array passed in earlier was changed by a later operation", "lower": lo, "upper": hi})
                     kept_args = [t for t in kept_args if t[0] is not arr]
                     break
+    if ctor_args is not None:
+        if not same(ctor_args[0], ctor_args[1]) or not same(ctor_args[2], ctor_args[3]):
+            viol.append({"mech": "argument-modified", "what": "arrays handed to the constructor were changed by later operations on the object",
+                         "lower_was": ctor_args[1].tolist(), "lower_now": ctor_args[0].tolist()})
+        xq = float(rng.random())
+        got, ref = twin.GetImage(xq), Evolvent(twin_box[0], twin_box[1], N, m).GetImage(xq)
+        if not same(got, ref):
+            viol.append({"mech": "image-depends-on-history", "what": "a second object built from the same bound arrays changed its answers after operations on the first",
+                         "x": xq, "got": np.asarray(got).tolist(), "fresh": ref.tolist()})
     for k2, v in cnt.items():
         obs["ops_" + k2] = v
     obs["kept_argument_arrays_rechecked"] = len(kept_args)
@@ -191,7 +214,7 @@ def run_case(c):
 
 
 def finalize(obs, tier, stats):
-    for k in ("ops_image", "ops_inverse", "ops_preimages", "ops_setbounds", "integer_typed_args", "roundtrip_args", "image_of_previous_inverse", "box_special", "box_unit", "box_far", "kept_argument_arrays_rechecked", "work_buffer_args", "setbounds_with_reused_objects", "constructed_from_reused_buffers"):
+    for k in ("ops_image", "ops_inverse", "ops_preimages", "ops_setbounds", "integer_typed_args", "roundtrip_args", "image_of_previous_inverse", "box_special", "box_unit", "box_far", "kept_argument_arrays_rechecked", "work_buffer_args", "setbounds_with_reused_objects", "constructed_from_reused_buffers", "constructed_from_caller_arrays"):
         if not obs.get(k):
             return "operation class %s never exercised" % k, {}
     return None, {}
